@@ -53,14 +53,17 @@ def check_one(case, mw_real, parser, mw_model, pw, rec, extra_cls=()):
     want = segoracle.tallies(sections)
     for name in want:
         delta = after[name] - before[name]
-        if name == 'alpha':
+        if name in ('alpha', 'emails'):
             # Greek final sigma: whole-string and per-character lower-casing differ ('ς' vs 'σ'); both spell the same word
             def norm(c):
                 out = type(c)()
-                for (ln, w), v in c.items():
-                    out[(ln, w.replace('\u03c2', '\u03c3'))] += v
+                for k, v in c.items():
+                    if isinstance(k, tuple):
+                        out[(k[0], k[1].replace('\u03c2', '\u03c3'))] += v
+                    else:
+                        out[k.replace('\u03c2', '\u03c3')] += v
                 return out
-            delta, want = norm(delta), dict(want, alpha=norm(want['alpha']))
+            delta, want = norm(delta), dict(want, **{name: norm(want[name])})
         if delta != want[name] or (before[name] - after[name]):
             raise Violation('counters', f'password {pw!r} -> {sections}: counter {name} changed by {dict(delta)}, the segments imply {dict(want[name])}', case)
 
